@@ -10,6 +10,11 @@ import (
 )
 
 func validateEnums(env *Environment, errorSink *validation.ErrorSink) *Environment {
+	if len(errorSink.Errors) > 0 {
+		// alias chains are only known to be finite once the reference cycle check has passed
+		return env
+	}
+
 	Visit(env, func(self Visitor, node Node) {
 		enum, ok := node.(*EnumDefinition)
 		if !ok {
